@@ -296,10 +296,16 @@ func expectFor(p *plan.Plan, op *plan.Op, openSeam bool) Expect {
 			e.MustFail, e.Why = true, "invalid URL"
 			return e
 		}
+		if np.CLen != nil && *np.CLen >= 0 && *np.CLen < int64(len(doc)) {
+			doc = doc[:*np.CLen]
+		}
 		cut, errf := readerCut(len(doc), np.Body)
 		e.Ref = &RefSpec{Kernel: p.Kernel, Doc: doc[:cut], Opt: &o}
 		if errf {
 			e.MayFail, e.Why = true, "body reset at byte "+fmt.Sprint(cut)
+		}
+		if np.CLen != nil && *np.CLen > int64(len(doc)) && !errf && cut == len(doc) {
+			e.MayFail, e.Why = true, "connection closed before the declared Content-Length"
 		}
 		tmo := op.TimeoutMs * 1000 // us
 		if np.FailConnect {
